@@ -62,7 +62,7 @@ func autoDetectPacketSize(r io.Reader) (packetSize int, err error) {
 	// Read first bytes
 	const l = autoDetectPacketSizeLength
 	var b = make([]byte, l)
-	shouldRewind, rerr := peek(r, b)
+	n, shouldRewind, rerr := peek(r, b)
 	if rerr != nil {
 		err = fmt.Errorf("astits: reading first %d bytes failed: %w", l, rerr)
 		return
@@ -72,6 +72,13 @@ func autoDetectPacketSize(r io.Reader) (packetSize int, err error) {
 	if b[0] != syncByte {
 		discardPeeked(r, l)
 		err = ErrPacketMustStartWithASyncByte
+		return
+	}
+
+	// Less than the smallest packet: the stream is nothing but a truncated packet, which is its end
+	if n < MpegTsPacketSize {
+		discardPeeked(r, l)
+		err = fmt.Errorf("astits: reading first %d bytes failed: %w", l, io.EOF)
 		return
 	}
 
@@ -117,7 +124,7 @@ func discardPeeked(r io.Reader, n int) {
 // bufio.Reader can't be rewinded, which leads to packet loss on packet size autodetection
 // but it has handy Peek() method
 // so what we do here is peeking bytes for bufio.Reader and falling back to rewinding/syncing for all other readers
-func peek(r io.Reader, b []byte) (shouldRewind bool, err error) {
+func peek(r io.Reader, b []byte) (n int, shouldRewind bool, err error) {
 	if br, ok := r.(*bufio.Reader); ok {
 		var bs []byte
 		// As for other readers, hitting the end of a short input is not an error here, the caller examines what is
@@ -125,13 +132,11 @@ func peek(r io.Reader, b []byte) (shouldRewind bool, err error) {
 		if bs, err = br.Peek(len(b)); err != nil && (err != io.EOF || len(bs) == 0) {
 			return
 		}
-		copy(b, bs)
-		return false, nil
+		return copy(b, bs), false, nil
 	}
 
 	// A reader may return fewer bytes than asked for: read until the buffer is full. Hitting the end of a short input
 	// is not an error here, the caller examines what is there
-	var n int
 	if n, err = readFull(r, b); err == io.EOF && n > 0 {
 		err = nil
 	}
